@@ -844,6 +844,16 @@ theorem safe_output_lt (lookup : List Char → Option (List Char)) (t : Node) (h
   obtain ⟨hh, ps, hser, _, hwf, _, hlt, _, _⟩ := hx x
   exact ⟨_, ps, hh, hser, hwf, fun i hi => hlt i (by rw [← hser]; exact hi)⟩
 
+/-- **C19 at tree level.** `Node::render()` / `Node::xrender()` return exactly the concatenation of
+    one piece per trait call the tree issues, in call order (then NUL ↦ U+FFFD) — with or without
+    html nodes, for every tree that renders. -/
+theorem render_html_events (lookup : List Char → Option (List Char)) (x : Bool) (t : Node)
+    (evs : List Event) (h : render lookup t = .ok evs) :
+    renderHtml lookup x t = .ok (replaceNul (flatten (pieces x evs))) ∧
+    (pieces x evs).length = evs.length := by
+  refine ⟨?_, pieces_length x evs⟩
+  simp [renderHtml, h, serialize_events]
+
 /-! ## 9. order: `render_children_in_order` / `render_deterministic` -/
 
 /-- the events of a result (`[]` for a panic) -/
@@ -1071,24 +1081,24 @@ def docAll : Node :=
 
 -- the hypotheses of `safe_output` hold for it …
 example : Renderable docAll ∧ HtmlFree docAll ∧ AttrsSourcepos docAll := by decide
+-- … so `safe_output` applies to it, hostile payloads and all
+example := safe_output lkDemo docAll (by decide) (by decide) (by decide)
 -- … although an html node occurs in the tree (below the image): `HtmlFree` is about rendered nodes
 example : ∃ m ∈ nodes docAll, m.kind.isHtml = true := by decide
 
 -- and this is what it renders to (byte-identical to the Rust `xrender()` / `render()` of that tree;
--- the expected string is cut into short literals because `String.toList` of a long literal is
--- slow in the kernel)
+-- the expected string is cut into short literals because `String.toList` of a literal costs the
+-- kernel time that grows faster than its length)
 def docAllXhtml : List Char :=
-     "<h1 data-sourcepos=\"1:1-1:3\">&quot;&gt;&lt;scrip".toList ++
-     "t&gt;</h1>\n<h2>a�b</h2>\n<p><em>e</em><strong>s</".toList ++
-     "strong><s>d</s>&lt;\n<br />\n<code>&lt;c&gt;</code".toList ++
-     "><a href=\"/u&quot;x\" title=\"t&quot;&lt;\">l</a><i".toList ++
-     "mg src=\"/i\" alt=\"a&quot;&lt;b&gt;\n\" title=\"&quot".toList ++
-     "; onerror=&quot;x\" /><a href=\"http://x/?a&amp;b\"".toList ++
-     ">http://x/?a&amp;b</a></p>\n<hr />\n<pre><code>&lt".toList ++
-     ";pre&gt;\n</code></pre>\n<pre><code class=\"languag".toList ++
-     "e-r&quot;&quot;s\">x\n</code></pre>\n<blockquote>\n<".toList ++
-     "ol start=\"7\">\n<li>i</li>\n</ol>\n<ul>\n<li></li>\n</".toList ++
-     "ul>\n</blockquote>\n".toList
+  "<h1 data-sourcepos=\"".toList ++ "1:1-1:3\">&quot;&gt;&".toList ++ "lt;script&gt;</h1>\n<".toList ++
+  "h2>a�b</h2>\n<p><em>e".toList ++ "</em><strong>s</stro".toList ++ "ng><s>d</s>&lt;\n<br ".toList ++
+  "/>\n<code>&lt;c&gt;</".toList ++ "code><a href=\"/u&quo".toList ++ "t;x\" title=\"t&quot;&".toList ++
+  "lt;\">l</a><img src=\"".toList ++ "/i\" alt=\"a&quot;&lt;".toList ++ "b&gt;\n\" title=\"&quot".toList ++
+  "; onerror=&quot;x\" /".toList ++ "><a href=\"http://x/?".toList ++ "a&amp;b\">http://x/?a".toList ++
+  "&amp;b</a></p>\n<hr /".toList ++ ">\n<pre><code>&lt;pre".toList ++ "&gt;\n</code></pre>\n<".toList ++
+  "pre><code class=\"lan".toList ++ "guage-r&quot;&quot;s".toList ++ "\">x\n</code></pre>\n<b".toList ++
+  "lockquote>\n<ol start".toList ++ "=\"7\">\n<li>i</li>\n</o".toList ++ "l>\n<ul>\n<li></li>\n</".toList ++
+  "ul>\n</blockquote>\n".toList
 
 example : renderHtml lkDemo true docAll = .ok docAllXhtml := by
   -- evaluated through the per-event pieces (`serialize_events`): linear, unlike the buffer fold
